@@ -486,6 +486,9 @@ type WFlagMeta struct {
 }
 
 type WFlag struct {
+	// LK: the key under which the data provider returns this flag, when it differs from the flag's
+	// own Key field (the DataProvider is application code and may answer any lookup with any item)
+	LK       *string     `json:"lk,omitempty"`
 	Key      string      `json:"key"`
 	On       bool        `json:"on"`
 	Prereqs  []WPrereq   `json:"prereqs"`
@@ -519,6 +522,7 @@ type WSegRule struct {
 }
 
 type WSegment struct {
+	LK      *string      `json:"lk,omitempty"` // see WFlag.LK
 	Key     string       `json:"key"`
 	Inc     []string     `json:"inc"`
 	Exc     []string     `json:"exc"`
@@ -534,6 +538,20 @@ type WSegment struct {
 	IncM    []string     `json:"incM"`
 	ExcM    []string     `json:"excM"`
 	Form    string       `json:"form"`
+}
+
+func (f *WFlag) lookupKey() string {
+	if f.LK != nil {
+		return *f.LK
+	}
+	return f.Key
+}
+
+func (s *WSegment) lookupKey() string {
+	if s.LK != nil {
+		return *s.LK
+	}
+	return s.Key
 }
 
 type WStore struct {
@@ -645,6 +663,13 @@ func (w *WFlag) build() *ldmodel.FeatureFlag {
 		if err != nil {
 			panic(fmt.Sprintf("re-decode failed: %v for %s", err, data))
 		}
+		if sh, ok := shuffleMembers(data, newRng(hashStr(string(data)))); ok {
+			if g2, err := ldmodel.NewJSONDataModelSerialization().UnmarshalFeatureFlag(sh); err == nil {
+				jsonTwins.Store(&g2, &g)
+				return &g2
+			}
+			panic(fmt.Sprintf("decoding fails after reordering object members: %s", sh))
+		}
 		return &g
 	}
 	return &f
@@ -686,6 +711,13 @@ func (w *WSegment) build() *ldmodel.Segment {
 		g, err := ldmodel.NewJSONDataModelSerialization().UnmarshalSegment(data)
 		if err != nil {
 			panic(fmt.Sprintf("re-decode failed: %v for %s", err, data))
+		}
+		if sh, ok := shuffleMembers(data, newRng(hashStr(string(data)))); ok {
+			if g2, err := ldmodel.NewJSONDataModelSerialization().UnmarshalSegment(sh); err == nil {
+				jsonTwins.Store(&g2, &g)
+				return &g2
+			}
+			panic(fmt.Sprintf("decoding fails after reordering object members: %s", sh))
 		}
 		return &g
 	}
@@ -786,6 +818,9 @@ func dumpTargets(ts []ldmodel.Target) []WTarget {
 }
 
 func dumpFlag(f *ldmodel.FeatureFlag, form string) WFlag {
+	if tw, ok := jsonTwins.Load(f); ok {
+		f = tw.(*ldmodel.FeatureFlag)
+	}
 	w := WFlag{Key: f.Key, On: f.On, Targets: dumpTargets(f.Targets), CTargets: dumpTargets(f.ContextTargets),
 		FT: dumpVR(&f.Fallthrough), Off: fromOptInt(f.OffVariation), Vars: jvsFromLD(f.Variations), Salt: f.Salt,
 		TrackFT: f.TrackEventsFallthrough, Excl: f.ExcludeFromSummaries, Form: form,
@@ -821,6 +856,9 @@ func dumpSegTargets(ts []ldmodel.SegmentTarget) []WSegTarget {
 }
 
 func dumpSegment(s *ldmodel.Segment, form string) WSegment {
+	if tw, ok := jsonTwins.Load(s); ok {
+		s = tw.(*ldmodel.Segment)
+	}
 	w := WSegment{Key: s.Key, Inc: nonNilStrs(s.Included), Exc: nonNilStrs(s.Excluded),
 		IncC: dumpSegTargets(s.IncludedContexts), ExcC: dumpSegTargets(s.ExcludedContexts), Salt: s.Salt,
 		Unb: s.Unbounded, UnbK: string(s.UnboundedContextKind), Version: s.Version, Gen: fromOptInt(s.Generation),
